@@ -423,6 +423,15 @@ func (w *World) BuildReq(e Event) Req {
 		rq.Method, rq.Path = e.Method, "/auth/logout"
 	case "Probe":
 		rq.Method, rq.Path = "GET", "/probe"
+		// the same protected handler mounted under other paths (k selects; the spec does not read it)
+		switch e.K {
+		case "alt1":
+			rq.Path = "/no/confirm/zone"
+		case "alt2":
+			rq.Path = "/no/lock/zone"
+		case "alt3":
+			rq.Path = "/ok/login/zone"
+		}
 	default:
 		panic("BuildReq: unknown act " + e.Act)
 	}
@@ -540,7 +549,7 @@ func (w *World) classify(e Event, r Resp) RespObs {
 		o.Class = "method405"
 	case r.Status == 404:
 		o.Class = "notfound"
-		if e.Act == "Probe" || strings.HasPrefix(r.Body, "") && r.Body == "" {
+		if r.Body == "" { // Middleware2 writes a bare 404; the router's NotFound handler writes a body
 			o.Class = "refuse404"
 		}
 	case r.Status == 401:
